@@ -54,8 +54,8 @@ CLAIMED = {
  "C16": E("layering algebra on TestCaseConfig/DocumentConfig vs 'first layer that sets it' (in-process, parser level) + end-to-end behaviour probes (which stream is recorded, CR LF, $VAR, document time limit via hook) under CLI flags, inline config, front-matter defaults, format defaults",
           "Exploration: 1e5 layerings + 200 e2e runs (quick).",
           "Environment judged on the first test of a document only (later tests inherit exported state, C12)."),
- "C17": E("round-trip law: to_yaml_one_liner -> fence line -> MarkdownParser; serde_yaml block form; front-matter; equality of configurations",
-          "Exploration: 5e4 / 3e6 configurations, hostile values.",
+ "C17": E("round-trip law: to_yaml_one_liner -> fence line -> MarkdownParser; serde_yaml block form; front-matter; equality of configurations; Miri sidecar (thorough) interpreting the same round trips through serde_yaml / unsafe-libyaml",
+          "Exploration: 5e4 / 3e6 configurations, hostile values; thorough adds 16 x 150 round trips interpreted by Miri.",
           "Values include U+0085/2028/2029/FEFF, DEL, C1 controls and non-characters; the generated document is read under both format bases."),
  "C18": E("end-to-end boundary observation: private TMPDIR tree before/after/2 s after each scrut process for 18 outcome classes x default/keep/work-directory, env and pwd probes from the JSON of failing tests, bursts of 8 concurrent processes; memcheck sidecar (thorough)",
           "Exploration: 216 runs (quick) / 1440 (thorough).",
